@@ -33,6 +33,10 @@ CONSTANTS N,            \* number of inputs
           Ws,           \* worker counts explored; 0 = serial execution
           WriterTyped,  \* set of BOOLEAN: TRUE = the writer declares an input type (write_seqs),
                         \*   FALSE = it accepts any serialisable value (write_json, write_db)
+          Namings,      \* naming schemes explored for the inputs' identifiers (see Name below)
+          RetireRule,   \* "equal": completing identifier x retires the not-completed record OF x (the
+                        \*   contract of the data store); "suffix": of every identifier that ends with x -
+                        \*   the design-level counterexample of MC_ComposedApp_retire.cfg
           Reversed,     \* set of BOOLEAN: TRUE = the inputs are handed over in reversed order
           FnStep,       \* the step (0 = none) that is a FUNCTION STYLE app constructed with mutable
                         \*   arguments (a list, a dict) which its body changes in place while it works
@@ -46,9 +50,9 @@ CONSTANTS N,            \* number of inputs
                         \*   a dict without info, bytes): a NotCompleted made from such a value
                         \*   cannot name the source, everything else must hold all the same
 
-VARIABLES plan, named, rev, w, wtyped, submitted, pending, running, finished, result, order, cons, written,
+VARIABLES plan, named, naming, rev, w, wtyped, submitted, pending, running, finished, result, order, cons, written,
           arg, argseen
-vars == <<plan, named, rev, w, wtyped, submitted, pending, running, finished, result, order, cons, written, arg, argseen>>
+vars == <<plan, named, naming, rev, w, wtyped, submitted, pending, running, finished, result, order, cons, written, arg, argseen>>
 
 Inputs   == 1..N
 Steps    == 1..S
@@ -67,6 +71,22 @@ PlanFile == IF "PLAN_FILE" \in DOMAIN IOEnv THEN IOEnv.PLAN_FILE ELSE ""
 PlanSel  == IF PlanFile = "" THEN {}
             ELSE LET a == JsonDeserialize(PlanFile) IN {a[k] : k \in DOMAIN a}
 Plans    == IF PlanSel = {} THEN [Inputs -> Profiles] ELSE PlanSel
+
+-----------------------------------------------------------------------------
+(* The identifier of input i.  Accounting is per INPUT: whatever textual relation *)
+(* the identifiers have to each other - one a proper suffix or prefix of another,  *)
+(* identifiers containing dots - every input keeps a record of its own.            *)
+Digit  == <<"1", "2", "3", "4">>
+Letter == <<"a", "b", "c", "d">>
+Name(nm, i) ==
+    CASE nm = "plain"      -> "t" \o Digit[i]                                       \* t1 t2 t3 ..
+      [] nm = "suffix"     -> IF i = 1 THEN "1" ELSE Digit[i - 1] \o "1"             \* 1 11 21 ..
+      [] nm = "suffixlast" -> IF i = N THEN "1" ELSE Digit[i] \o "1"                 \* 11 21 .. 1
+      [] nm = "prefix"     -> IF i = 1 THEN "g" ELSE "g" \o Letter[i - 1]            \* g ga gb ..
+      [] nm = "prefixlast" -> IF i = N THEN "g" ELSE "g" \o Letter[i]                \* ga gb .. g
+      [] nm = "dotted"     -> IF i = 1 THEN "gene" ELSE "gene." \o Digit[i - 1]      \* gene gene.1 ..
+(* identifier of a is a proper suffix of the identifier of b *)
+ProperSuffix(nm, a, b) == a # b /\ ((nm = "suffix" /\ a = 1) \/ (nm = "suffixlast" /\ a = N))
 
 -----------------------------------------------------------------------------
 (* what the composed function computes for ONE input, alone                    *)
@@ -121,6 +141,7 @@ Shows(i) == LET v == Run(plan, i) IN
 
 Init == /\ plan \in Plans
         /\ rev \in Reversed
+        /\ naming \in Namings
         /\ arg = Arg0
         /\ argseen = [i \in Inputs |-> NoArg]
         /\ named \in [Inputs -> Named]
@@ -143,21 +164,32 @@ LogFinal(act) ==
     THEN Emit([act |-> act, n |-> N, plan |-> plan, named |-> named, w |-> w, wtyped |-> wtyped,
                order |-> order', cons |-> cons', written |-> written',
                vals |-> [i \in Inputs |-> Run(plan, i)], rev |-> rev,
+               naming |-> naming, names |-> [i \in Inputs |-> Name(naming, i)],
                argseen |-> [i \in Inputs |-> IF Shows(i) THEN argseen'[i] ELSE NoArg], ret |-> "ok"])
     ELSE TRUE
+
+(* the store after record r has been written for input i: a completed record      *)
+(* retires the not-completed record of the SAME identifier and of no other          *)
+Stored(i, r) ==
+    [j \in Inputs |->
+        IF j = i THEN r
+        ELSE IF /\ RetireRule = "suffix" /\ r.kind = "completed"
+                /\ written[j].kind = "not_completed" /\ ProperSuffix(naming, i, j)
+             THEN None
+             ELSE written[j]]
 
 SubmitT ==
     /\ ~submitted
     /\ submitted' = TRUE
     /\ pending' = [i \in Inputs |-> IF rev THEN N + 1 - i ELSE i]
-    /\ UNCHANGED <<plan, named, rev, w, wtyped, running, finished, result, order, cons, written, arg, argseen>>
+    /\ UNCHANGED <<plan, named, naming, rev, w, wtyped, running, finished, result, order, cons, written, arg, argseen>>
 
 StartT(t) ==
     /\ w > 0 /\ pending # <<>> /\ t = Head(pending)
     /\ Cardinality(running) < w
     /\ pending' = Tail(pending)
     /\ running' = running \cup {t}
-    /\ UNCHANGED <<plan, named, rev, w, wtyped, submitted, finished, result, order, cons, written, arg, argseen>>
+    /\ UNCHANGED <<plan, named, naming, rev, w, wtyped, submitted, finished, result, order, cons, written, arg, argseen>>
 
 (* the worker returns the proxy: source kept, object replaced by the result *)
 CompleteT(t) ==
@@ -167,26 +199,26 @@ CompleteT(t) ==
     /\ result' = [result EXCEPT ![t] = [src |-> t, obj |-> Run(plan, t)]]
     /\ order' = Append(order, t)
     /\ argseen' = [argseen EXCEPT ![t] = IF Invoked(t) THEN Arg0 ELSE NoArg]   \* the task's own instance
-    /\ UNCHANGED <<plan, named, rev, w, wtyped, submitted, pending, cons, written, arg>>
+    /\ UNCHANGED <<plan, named, naming, rev, w, wtyped, submitted, pending, cons, written, arg>>
 
 (* the master writes result t under the identifier of the proxy's source *)
 ConsumeT(t) ==
     /\ t \in finished
     /\ finished' = finished \ {t}
-    /\ written' = [written EXCEPT ![result[t].src] = Rec(result[t].obj, wtyped)]
+    /\ written' = Stored(result[t].src, Rec(result[t].obj, wtyped))
     /\ cons' = Append(cons, result[t].src)
-    /\ UNCHANGED <<plan, named, rev, w, wtyped, submitted, pending, running, result, order, arg, argseen>>
+    /\ UNCHANGED <<plan, named, naming, rev, w, wtyped, submitted, pending, running, result, order, arg, argseen>>
 
 SerialT(t) ==
     /\ w = 0 /\ pending # <<>> /\ t = Head(pending)
     /\ pending' = Tail(pending)
     /\ result' = [result EXCEPT ![t] = [src |-> t, obj |-> Run(plan, t)]]
-    /\ written' = [written EXCEPT ![t] = Rec(Run(plan, t), wtyped)]
+    /\ written' = Stored(t, Rec(Run(plan, t), wtyped))
     /\ order' = Append(order, t)
     /\ cons' = Append(cons, t)
     /\ argseen' = [argseen EXCEPT ![t] = IF Invoked(t) THEN arg ELSE NoArg]     \* the master's instance
     /\ arg' = IF Invoked(t) /\ ~Isolated THEN Mutate(arg) ELSE arg
-    /\ UNCHANGED <<plan, named, rev, w, wtyped, submitted, running, finished>>
+    /\ UNCHANGED <<plan, named, naming, rev, w, wtyped, submitted, running, finished>>
 
 Submit      == SubmitT
 Start(t)    == StartT(t)
@@ -205,6 +237,7 @@ FairSpec == Spec /\ WF_vars(Next)
 
 TypeOK == /\ ~submitted => plan \in [Inputs -> Profiles]      \* the plan never changes
           /\ named \in [Inputs -> BOOLEAN] /\ rev \in BOOLEAN
+          /\ \A i, j \in Inputs : i # j => Name(naming, i) # Name(naming, j)     \* identifiers are unique
           /\ w \in Ws /\ wtyped \in BOOLEAN /\ submitted \in BOOLEAN
           /\ running \subseteq Inputs /\ finished \subseteq Inputs
           /\ Cardinality(running) <= w
